@@ -32,9 +32,9 @@ func init() {
 		QuickRuns: 1500, ThoroughRuns: 150000, QuickWall: 75 * time.Second, ThoroughWall: 20 * time.Minute,
 		Rule: "one evaluation = one seeded simulated ROUTE run (chaos phase, then a fault-free fair tail of at most 120 virtual seconds in which every target completes and acks on a 1 s timer and every source sends its 1 s watermark). distinct/non-trivial as for C01",
 		Real: routeReal, Stub: routeStub, Assume: append(append([]string{}, commonAssume...), "liveness is judged only in runs without stream failures, after the workload stopped, under a fair schedule")})
-	addSpec(&propSpec{ID: "C04", Profiles: []string{"C04"}, Level: "fault_enumeration",
-		QuickRuns: 1500, ThoroughRuns: 150000, QuickWall: 75 * time.Second, ThoroughWall: 20 * time.Minute,
-		Rule: "one evaluation = one seeded simulated ROUTE run with 0..3 stream faults (target cancel / transport break / clean close, source EOF / error / break) placed by the scheduler at arbitrary decisions, followed by reconnection in any order. non-trivial = messages and acks flowed and at least one fault fired",
+	addSpec(&propSpec{ID: "C04", Profiles: []string{"C04", "C04bias"}, Level: "fault_enumeration",
+		QuickRuns: 4000, ThoroughRuns: 150000, QuickWall: 75 * time.Second, ThoroughWall: 20 * time.Minute,
+		Rule: "one evaluation = one seeded simulated ROUTE run with 0..3 stream faults (target cancel / transport break / clean close, source EOF / error / break) placed by the scheduler at arbitrary decisions (in half of the runs anywhere from the start, in the other half at fault times drawn uniformly over the run so that they land on accumulated in-flight state; profile C04bias additionally prefers streams that hold unconfirmed tasks), followed by reconnection in any order. Each acknowledged-but-unconfirmed task is reported once. non-trivial = messages and acks flowed and at least one fault fired",
 		Real: routeReal, Stub: routeStub, Assume: commonAssume})
 	addSpec(&propSpec{ID: "C05", Profiles: []string{"C05sys", "C05ring"}, Level: "exploration",
 		QuickRuns: 6000, ThoroughRuns: 400000, QuickWall: 75 * time.Second, ThoroughWall: 20 * time.Minute,
@@ -47,8 +47,8 @@ func init() {
 		Rule: "one evaluation = one seeded simulated PASS run: 1-3 concurrent pass-through streams (default or LCM mode), up to 9 messages each way, stream windows 1..8; in profile C06 the scheduler places terminal events (initiator half-close / cancel / transport break / send failure / unknown message kind; serving side EOF / error / break / send failure / unknown kind; failed open; stalled CloseSend) at arbitrary decisions; profile C06clean has none and checks completeness. distinct = distinct trace fingerprint; non-trivial = messages were relayed and (C06) a terminal event fired",
 		Real: passReal, Stub: passStub, Assume: commonAssume})
 	addSpec(&propSpec{ID: "C20", Profiles: []string{"C20", "C20route"}, Level: "exploration",
-		QuickRuns: 4000, ThoroughRuns: 400000, QuickWall: 75 * time.Second, ThoroughWall: 20 * time.Minute,
-		Rule: "one evaluation = one seeded simulated PASS run in which 1-4 streams are opened with hostile cluster/shard metadata (boundary list incl. 0, -1, 1023..1025, 2^20 +-1, the int32 overflow threshold 238609294, 2^31-1, -2^31, values >= 2^32, non-numeric, missing, plus random huge and negative values; the range between 2^21 and the overflow threshold is excluded because it only costs memory), concurrently, followed by 1-2 well-formed streams; default and LCM modes; the stream observer's printer runs. Profile C20route: the ROUTE world (routing mode, both servers) with 2-5 hostile opens - optionally carrying the intra-proxy header - injected among the regular streams; the regular streams must still complete the fault-free liveness tail, nothing may crash, and everything must be cleaned up at the end. distinct = distinct trace fingerprint; non-trivial = all hostile opens were issued and at least one message was relayed",
+		QuickRuns: 8000, ThoroughRuns: 400000, QuickWall: 75 * time.Second, ThoroughWall: 20 * time.Minute,
+		Rule: "one evaluation = one seeded simulated PASS run in which 1-4 streams are opened with hostile cluster/shard metadata (boundary list incl. 0, -1, 1023..1025, 2^20 +-1, the int32 overflow threshold 238609294, 2^31-1, -2^31, values >= 2^32, non-numeric, missing, plus random huge and negative values; the range between 2^21 and the overflow threshold is excluded because it only costs memory; plus large representable shard ids 1024..1048575, which in one run out of three is the theme of every hostile stream so that the per-shard bookkeeping grows to different sizes concurrently), concurrently, followed by 1-2 well-formed streams; the active-stream counters are read through the observer's own printer by a probe task at the quiescent end of the drain and after every handler returned (no counter for an id no running handler carries, served well-formed streams counted, nothing counted at the end, the read itself finishes); default and LCM modes; the stream observer's printer runs. Profile C20route: the ROUTE world (routing mode, both servers) with 2-5 hostile opens - optionally carrying the intra-proxy header - injected among the regular streams; the regular streams must still complete the fault-free liveness tail, nothing may crash, and everything must be cleaned up at the end. distinct = distinct trace fingerprint; non-trivial = all hostile opens were issued and at least one message was relayed",
 		Real: passReal, Stub: passStub, Assume: commonAssume})
 	addSpec(&propSpec{ID: "C09", Profiles: []string{"C09"}, Level: "exploration",
 		QuickRuns: 3000, ThoroughRuns: 300000, QuickWall: 75 * time.Second, ThoroughWall: 20 * time.Minute,
@@ -68,8 +68,8 @@ func init() {
 		Rule: "one evaluation = one seeded simulated MUX run with RPCs through the MultiClientConn: in-flight RPCs during session churn (must end by their deadline), then at quiescent points: 4*N calls over the full pool (all succeed on registered sessions, spread over >= 2), sessions killed one by one (calls fail over to survivors, CanMakeCalls tracks the set, unavailability with none left), a new session appears (calls resume). Profile C11race: establisher role, the peer stops accepting once a session is up and session kills are aimed at sessions that have just come up (a removal racing the announcement of the addition); after the churn, with nothing new established, the endpoints the client connection may dial must equal the registered sessions. distinct = distinct trace fingerprint; non-trivial = sessions were established and at least one RPC succeeded",
 		Real: muxReal, Stub: muxStub, Assume: muxAssume})
 	addSpec(&propSpec{ID: "C19", Profiles: []string{"C19"}, Level: "fault_enumeration",
-		QuickRuns: 1500, ThoroughRuns: 100000, QuickWall: 80 * time.Second, ThoroughWall: 20 * time.Minute,
-		Rule:   "one evaluation = one seeded run of 3-6 TLS handshakes between the proxy's TLS configuration (server role: encryption.GetServerTLSConfig as wrapped by the mux receiver and the TCP server; client role: GetClientTLSConfig as wrapped by the mux establisher and the TCP client) and a harness peer whose credential is drawn from {valid chain, short-lived valid, self-signed, foreign CA, expired, not yet valid, wrong extended key usage, wrong name, none}, with verification on/off, with/without own certificate, an optional 2 h jump of the simulated clock between issuance and handshake, and an optional connection cut or byte flip at a random offset; 'admitted' = handshake completed on both sides and one application byte crossed each way; reference = independent x509 verification against the configured CA at the simulated time. distinct = distinct trace fingerprint (the sequence of cases and outcomes)",
+		QuickRuns: 6000, ThoroughRuns: 100000, QuickWall: 80 * time.Second, ThoroughWall: 20 * time.Minute,
+		Rule:   "one evaluation = one seeded run of 3-6 TLS handshakes between the proxy's TLS configuration (server role: encryption.GetServerTLSConfig as wrapped by the mux receiver and the TCP server; client role: GetClientTLSConfig as wrapped by the mux establisher and the TCP client) and a harness peer whose credential is drawn from {valid chain, short-lived valid, self-signed, foreign CA, expired, not yet valid, wrong extended key usage, wrong name, none}, with verification on/off, with/without own certificate, trust anchored in a configured CA file or (client role, RemoteCAPath empty) in the host's root store - which the harness replaces per worker process by one CA of its own through SSL_CERT_FILE -, an optional 2 h jump of the simulated clock between issuance and handshake, and an optional connection cut or byte flip at a random offset; 'admitted' = handshake completed on both sides and one application byte crossed each way; reference = independent x509 verification against the configured CA at the simulated time. distinct = distinct trace fingerprint (the sequence of cases and outcomes)",
 		Real:   []string{"encryption.GetServerTLSConfig / GetClientTLSConfig / fetchCACert / validateHasCA", "crypto/tls, crypto/x509 (standard library)"},
 		Stub:   []string{"network: vsim/simnet connection with cut / byte-flip switches", "peer: harness TLS endpoint with per-run generated credentials that presents its certificate regardless of the CA hint"},
 		Assume: append(append([]string{}, commonAssume...), "the mux receiver/establisher wrappers are tls.Server(conn, cfg) / tls.Client(conn, cfg) and the TCP server/client use credentials.NewTLS(cfg) with the same cfg: the handshake is performed directly on those configs", "crypto/rand is not owned by the simulator; outcomes do not depend on it")})
@@ -80,7 +80,7 @@ func init() {
 		Stub:   []string{"network: vsim/simnet (seams at net.Listen and grpc.NewClient in cluster_connection.go)", "both Temporal clusters: real gRPC servers with a recording fake AdminService"},
 		Assume: append(append([]string{}, commonAssume...), "gRPC runs goroutines of its own that the simulator does not schedule; verdicts are taken from quiescent observables (what the fake cluster recorded, what the caller got back)")})
 	addSpec(&propSpec{ID: "C08", Profiles: []string{"C08", "C04"}, Level: "exploration",
-		QuickRuns: 1500, ThoroughRuns: 150000, QuickWall: 75 * time.Second, ThoroughWall: 20 * time.Minute,
+		QuickRuns: 4000, ThoroughRuns: 150000, QuickWall: 75 * time.Second, ThoroughWall: 20 * time.Minute,
 		Rule: "one evaluation = one seeded simulated ROUTE run with stream churn (successor incarnations opening while predecessors tear down); oracles: no unrecovered panic, functional probes on the newest incarnation, empty registries and no live task after all streams ended",
 		Real: routeReal, Stub: routeStub, Assume: commonAssume})
 }
